@@ -198,3 +198,10 @@ Definition spec_verdict (name : str) (args : list value) : sverdict :=
            | None => SVAccept
            end
   end.
+
+(** two lists of names with the same members, the first without repetition *)
+Fixpoint nodup_names (l : list str) : bool :=
+  match l with [] => true | n :: r => negb (existsb (str_eqb n) r) && nodup_names r end.
+Definition same_names (a b : list str) : bool :=
+  (length a =? length b)%nat && nodup_names a &&
+  forallb (fun n => existsb (str_eqb n) b) a && forallb (fun n => existsb (str_eqb n) a) b.
